@@ -923,6 +923,11 @@ FILES = {
     'b33.matrix': '3 3\n1 1 0\n0 1 1\n1 1 1\n',
     'b22.kthlist': 'c bipartite\n4\n1 : 3 4 0\n2 : 4 0\n',
     'f1.cnf': 'p cnf 3 2\n1 -2 0\n2 3 0\n',
+    # file names that contain the spelling of an option
+    'in-T1.cnf': 'p cnf 3 2\n1 -2 0\n2 3 0\n',
+    'ring-T4.kthlist': 'c a 4-cycle\n4\n1 : 2 4 0\n2 : 1 3 0\n3 : 2 4 0\n4 : 1 3 0\n',
+    'b-T-o-q.matrix': '2 3\n1 1 0\n0 1 1\n',
+    'd-Txor.kthlist': 'c a dag\n3\n1 : 0\n2 : 1 0\n3 : 1 2 0\n',
     'f2.cnf': 'c with an empty clause\np cnf 2 2\n0\n1 2 0\n',
     'f3.cnf': 'c no clauses, unused variables\np cnf 4 0\n',
     'f4.cnf': 'p cnf 2 2\n1 1 0\n1 -1 2 0\n',
@@ -972,7 +977,7 @@ def tool_cases(tier, seed):
               S('gnm', 4, 3), S('gnd', 4, 2), S('empty', 4, 'plantclique', 3),
               S('grid', 2, 2, 'addedges', 1), S('complete', 3, 'splitedges', 1),
               _f('c4.kthlist'), _f('p4.dimacs'), _f('p4.dimacs', 'dimacs'), _f('k3.gml'),
-              _f('paw.dot'), S('complete', 0), S('nosuchfile.gml')]
+              _f('paw.dot'), S('complete', 0), S('nosuchfile.gml'), _f('ring-T4.kthlist')]
     if th:
         simple += [S('complete', 5), S('grid', 2, 3), S('grid', 4), S('empty', 5), S('gnp', 5, '.4'),
                    S('gnm', 5, 5), S('complete', 1, 3), S('grid', 2, 2, 'plantclique', 3)]
@@ -980,12 +985,12 @@ def tool_cases(tier, seed):
             and s[1] in ('1', '2', '3')] + [_f('k3.gml')]
     dag = [S('path', 0), S('path', 1), S('path', 2), S('path', 3), S('pyramid', 0), S('pyramid', 1),
            S('tree', 1), _f('d3.kthlist'), _f('d4.dimacs'), _f('d4.dimacs', 'dimacs'), S('pyramid', 2),
-           S('tree', 2), S('nosuch', 3)]
+           S('tree', 2), S('nosuch', 3), _f('d-Txor.kthlist')]
     bip = [S('complete', 1, 1), S('complete', 2, 2), S('complete', 2, 3), S('complete', 3, 2),
            S('empty', 2, 2), S('shift', 3, 3, 0, 1), S('regular', 3, 3, 2), S('glrp', 2, 3, '.5'),
            S('glrd', 3, 3, 2), S('glrm', 3, 3, 2), S('empty', 3, 3, 'plantbiclique', 2, 2),
            S('empty', 2, 2, 'addedges', 2), _f('b23.matrix'), _f('b33.matrix'), _f('b22.kthlist'),
-           _f('b23.matrix', 'matrix'), S('complete', 0, 2)]
+           _f('b23.matrix', 'matrix'), S('complete', 0, 2), _f('b-T-o-q.matrix')]
     if th:
         bip += [S('complete', 4, 4), S('complete', 3, 5), S('regular', 4, 4, 3), S('shift', 4, 4, 0, 1, 2),
                 S('glrp', 4, 4, '.5'), S('regular', 4, 4, 2, 'addedges', 1)]
@@ -1131,7 +1136,7 @@ def tool_cases(tier, seed):
         add('pitfall', list(p), ('pitfall',) + p, sd=6)
         cs[-1]['limit'] = cs[-2]['limit'] = 22
     # ---- dimacs
-    for name in ('f1.cnf', 'f2.cnf', 'f3.cnf', 'f4.cnf', 'f5.cnf'):
+    for name in ('f1.cnf', 'f2.cnf', 'f3.cnf', 'f4.cnf', 'f5.cnf', 'in-T1.cnf'):
         add('dimacs', _f(name))
         add('dimacs', [], stdin=FILES[name])
     add('dimacs', [PLACE + '/missing.cnf'])
